@@ -89,5 +89,5 @@ def _wf_kind(msg):
 
 def run(rep):
     tier = rep.tier
-    st = plans.run_plan(rep, "vf.checks.c04", tier, plans.standard(tier))
+    st = plans.run_plan(rep, "vf.checks.c04", tier, plans.standard(tier, families="dep"))
     fill_evidence(rep, st)
